@@ -96,7 +96,7 @@ class C07(Prop):
                    'one case in nine is a model with tied weights (two registered layers share one weight Parameter): there only "every parameter is scaled by one positive scalar <= 1 relative to the unclipped run" is checked',
                    'with pipe = 2 every stage has its own preconditioner instance: "sum over layers" may be the instance\'s layers (what the code does) or all layers of the model; a run must follow one of the two readings consistently, anything else is reported (key clip-scale-pipeline)']
     examples = {'quick': 120, 'thorough': 500}
-    shards = {'quick': 4, 'thorough': 16}
+    shards = {'quick': 8, 'thorough': 16}
     shrink_budget_s = {'quick': 30.0, 'thorough': 180.0}
     required_labels = {'quick': ['nontrivial=True', 'kl_none=True', 'clip_active=True', 'zero_grad=True', 'multi_rank=True', 'pipe=2', 'live_hp=True', 'tied_weights=True', 'loss_scale=True'],
                        'thorough': ['nontrivial=True', 'kl_none=True', 'clip_active=True', 'zero_grad=True', 'multi_rank=True', 'lr_zero=True']}
